@@ -50,7 +50,10 @@ fn judge<T: Sc>(idx: usize, l: &ThLine, rep: &mut Report) {
     let y = DMatrix::from_fn(n, s, |i, c| T::of64(l.y[i][c] as f64));
     let eps: Option<T> = if l.thr.kind == "default" {
         None
+    } else if l.thr.kind == "zero" {
+        Some(T::of64(if l.thr.neg { -0.0 } else { 0.0 }))
     } else {
+        // (2^-1050 is a subnormal f64 and becomes 0 in f32, 2^-140 is a subnormal f32)
         Some(T::of64((2.0f64).powi(-l.thr.u) * if l.thr.neg { -1.0 } else { 1.0 }))
     };
     // C11: the parallel flavour applies the same threshold as the sequential one
@@ -66,6 +69,30 @@ fn judge<T: Sc>(idx: usize, l: &ThLine, rep: &mut Report) {
                 json!({"flavour": format!("line={} {} ks={:?} thr={}{}", idx, T::NAME, l.ks, l.thr.kind, l.thr.u), "dev": d,
                        "what": "parallel problem applies a different singular value threshold than the sequential problem"})
             });
+        }
+    }
+    // C07: column q of the coefficients of the problem with S right hand sides is what the single
+    // right hand side problem on column q gives - under the same threshold
+    if s >= 2 {
+        for par in [false, true] {
+            let Some(cm) = build_problem(TableModel::new(table.clone(), &[0]), true, par, &y, Some(&w), eps).ok().and_then(|p| p.coeffs()) else {
+                continue;
+            };
+            for q in 0..s {
+                let yq = DMatrix::from_fn(n, 1, |i, _| y[(i, q)]);
+                let Some(c1) = build_problem(TableModel::new(table.clone(), &[0]), false, false, &yq, Some(&w), eps).ok().and_then(|p| p.coeffs()) else {
+                    continue;
+                };
+                let scale = c1.iter().chain(cm.column(q).iter()).fold(1.0f64, |m, v| m.max(v.to64().abs()));
+                let d = (0..m).fold(0.0f64, |mx, j| {
+                    let x = (cm[(j, q)].to64() - c1[(j, 0)].to64()).abs() / scale;
+                    mx.max(if x.is_finite() { x } else { f64::INFINITY })
+                });
+                rep.check("C07", d <= T::tol(), d, || {
+                    json!({"flavour": format!("line={} {} M={} N={} S={} ks={:?} thr={}{} par={}", idx, T::NAME, m, n, s, l.ks, l.thr.kind, l.thr.u, par), "column": q, "dev": d,
+                           "what": "column of the coefficients differs from the single right hand side problem on that column (same threshold)"})
+                });
+            }
         }
     }
     for (mrhs, par) in [(s >= 2, false), (true, true)] {
